@@ -114,7 +114,7 @@ def _ok(c):
 # ----------------------------------------------------------------------------- the check
 
 def engine_check(ctx: Ctx, profile, n_quick, n_thorough, nontrivial, monitor=None, tag=None,
-                 post=None, mutate=None):
+                 post=None, mutate=None, expand=None):
     """Generate scenarios for `ctx.prop`, compare model and implementation, decide.
 
     nontrivial(scn, impl_lines, rt) -> bool ; monitor(scn, impl_lines, rt) -> list[str] failures
@@ -147,7 +147,10 @@ def engine_check(ctx: Ctx, profile, n_quick, n_thorough, nontrivial, monitor=Non
                 s = gen.gen_scenario(rng, profile, f"{tag}-{ctx.seed}-{i}")
                 if mutate:
                     mutate(rng, s)
-                pending.append(s)
+                if expand:
+                    pending.extend(expand(rng, s))
+                else:
+                    pending.append(s)
                 i += 1
         batch, pending = pending[:chunk], pending[chunk:]
         for (s, a, b, rt) in run_pair(batch):
@@ -283,3 +286,207 @@ def _replay_text(s, ia, ib, why, kind):
         [f"# kind: {kind}", "# why: " + " | ".join(why), "# scenario (model line protocol):"]
         + eng.model_lines(s) + ["# implementation observation (canonical):"] + ia
         + ["# model observation (canonical):"] + ib + ["# scenario json:", scn_to_json(s)]) + "\n"
+
+
+# ----------------------------------------------------------------------------- Lean Spec monitors
+
+REPR2TOK = {eng.rp(v): k for k, v in eng.POOL.items()}
+
+
+def tok_of_repr(r):
+    if r == "-":
+        return "-"
+    return str(REPR2TOK[r]) if r in REPR2TOK else "-"
+
+
+def split_ops(a):
+    """Split canonical observation lines into per-op blocks: [(entry lines, R line parts)]."""
+    blocks, cur = [], []
+    for l in a:
+        if l.startswith("R "):
+            blocks.append((cur, l.split(" ")))
+            cur = []
+        else:
+            cur.append(l)
+    return blocks
+
+
+def c01_monitor(s, a, rt):
+    """C01 Spec (`choose`, Lean) evaluated on the implementation's observation, per external send
+    whose processing issued no nested send (then the op is exactly one trigger)."""
+    mons = []
+    prev_cur = "-" if s.cur0 is None else eng.rp(eng.POOL[s.cur0])
+    for (entries, R) in split_ops(a):
+        i = int(R[1])
+        if R[2] == "skipped":
+            continue
+        kv = dict(p.split("=", 1) for p in R if "=" in p)
+        op = s.ops[i]
+        sends_here = any(rt.act(int(l.split(" ")[3]), int(l.split(" ")[1]))[2] for l in entries if l.startswith("B "))
+        if op[0] == "send" and op[1] != 0 and not sends_here and prev_cur != "-":
+            out = "ok" if R[2] == "ok" else "err:" + R[3]
+            mons.append(f"mon i={i} tid={kv['tid']} pre={tok_of_repr(prev_cur)} ev={op[1]} out={out} "
+                        f"post={tok_of_repr(kv['cur'])}")
+        prev_cur = kv["cur"]
+    if not mons:
+        return []
+    lines = eng.model_lines(s, kind="c01mon")[:-1] + mons + ["end"]
+    res = run_driver(lines).get(s.name, [])
+    return [f"C01: {l}" for l in res if " FAIL " in l] + ([] if len(res) == len(mons) else ["C01: monitor output incomplete"])
+
+
+
+def c14_monitor(s, a, rt):
+    """C14 Spec on the implementation's observation: for an external send that issued no nested
+    send and did not raise, the returned value is unwrap(before returns ++ on returns) of the
+    executed transition (returns read from the callbacks' own E lines), None when nothing fired."""
+    import ast
+    fails = []
+    for (entries, R) in split_ops(a):
+        if R[2] != "ok":
+            continue
+        i = int(R[1])
+        op = s.ops[i]
+        if op[0] != "send" or any(l.startswith("S ") for l in entries):
+            continue
+        kv = dict(p.split("=", 1) for p in R if "=" in p)
+        tid = kv["tid"]
+        fired = any(l.startswith("T ") for l in entries)
+        bef = [l.split(" ", 4)[4] for l in entries if l.startswith(f"E {tid} before ")]
+        on = [l.split(" ", 4)[4] for l in entries if l.startswith(f"E {tid} on ")]
+        got = R[3]
+        if not fired:
+            exp_ok = got == "None"
+        else:
+            rets = bef + on
+            if len(rets) == 0:
+                exp_ok = got == "None"
+            elif len(rets) == 1:
+                exp_ok = got == rets[0]
+            else:
+                try:
+                    val = ast.literal_eval(got)
+                except Exception:
+                    val = None
+                exp_ok = (isinstance(val, list) and len(val) == len(rets)
+                          and sorted(map(eng.rp, val[:len(bef)])) == sorted(bef)
+                          and sorted(map(eng.rp, val[len(bef):])) == sorted(on))
+        if not exp_ok:
+            fails.append(f"C14: op {i} returned {got}; before returns {bef}, on returns {on}, fired={fired}")
+    return fails
+
+
+def c04_monitor(s, a, rt):
+    """C04 Spec on the implementation's observation (RTC): after an op that ended in a user
+    exception (i) the state is the failing transition's source if the raising callback ran in
+    validators/cond/before/exit/on and its target if it ran in enter/after (checked when the raising
+    callback's signature lets it see source/target), (ii) nothing runs in that op after the raising
+    callback, (iii) no later op shows an entry of a trigger that was queued before the failure."""
+    fails = []
+    if not s.rtc:
+        return fails
+    for (entries, R) in split_ops(a):
+        if R[2] == "skipped":
+            continue
+        kv = dict(p.split("=", 1) for p in R if "=" in p)
+        i = int(R[1])
+        if R[2] == "err" and R[3].startswith("user:"):
+            open_b = {}
+            last_raiser = None
+            for n, l in enumerate(entries):
+                p = l.split(" ")
+                if p[0] == "B":
+                    open_b[(p[1], p[2], p[3])] = n
+                elif p[0] == "E":
+                    open_b.pop((p[1], p[2], p[3]), None)
+            if open_b:
+                key, n = max(open_b.items(), key=lambda kv_: kv_[1])
+                bl = entries[n]
+                f = dict(x.split("=", 1) for x in bl.split(" ")[4:])
+                ph = key[1]
+                # (ii) nothing but the raiser's own S lines after its B line
+                for l in entries[n + 1:]:
+                    p = l.split(" ")
+                    if p[0] in ("B", "E", "T") or (p[0] == "S" and (p[1], p[2], p[3]) != key):
+                        fails.append(f"C04: op {i}: entry after the raising callback: {l}")
+                        break
+                want = None
+                if ph in ("enter", "after") and f.get("tgt", "?") not in ("?",):
+                    want = eng.rp(eng.POOL[s.states[int(f["tgt"])].val])
+                elif ph not in ("enter", "after") and f.get("src", "?") not in ("?", "-"):
+                    want = eng.rp(eng.POOL[s.states[int(f["src"])].val])
+                if want is not None and kv["cur"] != want:
+                    fails.append(f"C04: op {i} failed in phase {ph} ({bl}); state is {kv['cur']}, expected {want}")
+    # refine (iii): entries of a later op must carry ids >= that op's own id
+    seen_fail = False
+    for (entries, R) in split_ops(a):
+        kv = dict(p.split("=", 1) for p in R if "=" in p)
+        if seen_fail and kv.get("tid", "-") != "-":
+            own = int(kv["tid"])
+            for l in entries:
+                p = l.split(" ")
+                if p[0] in ("B", "S", "E") and int(p[1]) < own:
+                    fails.append(f"C04: stale trigger {p[1]} ran during op {R[1]} (own id {own}): {l}")
+                    break
+        if len(R) > 3 and R[2] == "err":
+            seen_fail = True
+    return fails
+
+
+def fault_variants(max_faults):
+    """expand(rng, scn): run the scenario fault-free on the implementation, number the callback
+    invocations, return copies each with one (or two) injected raising invocation(s)."""
+    def expand(rng, s):
+        base = copy.deepcopy(s)
+        base.acts = [a for a in base.acts if a[4] is None]
+        impl, _ = eng.run_impl(base)
+        if impl and impl[0].startswith("DEFERR"):
+            return []
+        sib = gen.sibling_map(base)
+        cbm = {c.id: c for c in base.cbs}
+        pos = []
+        for l in impl:
+            p = l.split(" ")
+            if p[0] == "B":
+                cb, tid, ph = int(p[3]), int(p[1]), p[2]
+                def sends_at(x, t):
+                    for (c_, lo, hi, _r, _z, sd) in base.acts:
+                        if c_ == x and lo <= t <= hi:
+                            return bool(sd)
+                    return False
+                if (all(cbm[x].yields == 0 and not sends_at(x, tid) for x in sib.get(cb, ()) if x != cb)
+                        and (cb, tid, ph) not in pos):
+                    pos.append((cb, tid, ph))
+        out = []
+        if not pos:
+            return [base]
+        by_phase = {}
+        for x in pos:
+            by_phase.setdefault(x[2], []).append(x)
+        chosen = []
+        phases = list(by_phase)
+        rng.shuffle(phases)
+        while len(chosen) < min(max_faults, len(pos)):
+            for ph in phases:
+                cand = [x for x in by_phase[ph] if x not in chosen]
+                if cand and len(chosen) < max_faults:
+                    chosen.append(rng.choice(cand))
+            if all(all(x in chosen for x in by_phase[ph]) for ph in phases):
+                break
+        for k, (cb, tid, ph) in enumerate(chosen):
+            c = copy.deepcopy(base)
+            c.name = f"{s.name}-f{k}"
+            old = next((a for a in c.acts if a[0] == cb and a[1] <= tid <= a[2]), None)
+            c.acts.insert(0, (cb, tid, tid, 0, rng.randint(1, 9), list(old[5]) if old else []))
+            # two failures in a row: sometimes add a second fault later
+            if rng.random() < 0.25:
+                later = [x for x in pos if x[1] > tid]
+                if later:
+                    cb2, tid2, _ = rng.choice(later)
+                    c.acts.insert(0, (cb2, tid2, tid2, 0, rng.randint(1, 9), []))
+            # make sure something is sent after the failure
+            evs = sorted({e for t in c.trans for e in t.events})
+            c.ops = list(c.ops) + [("send", rng.choice(evs)), ("send", rng.choice(evs))]
+            out.append(c)
+        return out
+    return expand
